@@ -253,7 +253,9 @@ class PageBreakCalculator(BaseModel):
         # 1. Calculate data rows
         # Use existing calculation logic but handle removed columns manually
         row_metadata_list = []
-        total_width = sum(col_widths)
+        # col_widths holds cumulative widths (right boundaries): the table width
+        # is the last one, not their sum
+        total_width = col_widths[-1] if len(col_widths) > 0 else 0
 
         # Pre-calculate group changes
         page_by_changes = [True] * df.height
